@@ -212,8 +212,8 @@ func (d *Decoder) ReadData() (interface{}, error) {
 		return d.readString(int32(tag))
 	case dateTag(tag):
 		return d.readDate(int32(tag))
-	case tag == _binaryChunk && len(d.clsDefList) > int(_binaryChunk-_objectLenTagMin):
-		// x62 is both the non-final binary chunk 'b' and the short form of an instance
+	case tag == _binaryChunkDraft && len(d.clsDefList) > int(_binaryChunkDraft-_objectLenTagMin):
+		// x62 is both the draft's non-final binary chunk 'b' and the short form of an instance
 		// of class #2; it is an instance once class #2 has been defined
 		return d.ReadLenTagObject(tag)
 	case binaryTag(tag):
